@@ -386,6 +386,9 @@ def _list(ex, st, args, kwargs, k, where):
         if fn is None:
             raise Unsupported("list(dict view)")
         return k(*fn(ex, st, d, mode))
+    if isinstance(v, VSet):
+        s2, l = list_of_set(ex, st, v)
+        return k(s2, l)
     t, ek = ex.as_seq(st, v)
     s2, l = ex.new_list(st, ek, t)
     return k(s2, l)
@@ -958,3 +961,100 @@ def _is_prefix(ex, st, a, b):
     ta, _ = ex.as_seq(st, ex.unwrap(a))
     tb, _ = ex.as_seq(st, ex.unwrap(b))
     return VBool(app("seq.prefixof", BOOL, ta, tb))
+
+
+# =============================================================================================
+# sets of ints: heap objects (VSet) with a characteristic array as content; pure set values VSetv in specs.
+# Intersection/union are z3 array combinators ((_ map and) / (_ map or)): obligations that use them are
+# discharged by the two z3 versions only (cvc5 1.0.3 has no array map).
+# =============================================================================================
+SETI = "(Array Int Bool)"
+EMPTY_SETI = T(f"((as const {SETI}) false)", SETI)
+
+
+def listset(ex, st, items: T) -> T:
+    """the set of the elements of an int sequence: uninterpreted, with the emptiness facts instantiated here:
+    len == 0 -> empty set; len > 0 -> the first and the last element are members"""
+    ex.decls.fun("listset", ["(Seq Int)"], SETI)
+    t = app("listset", SETI, items)
+    n = seq_len(items)
+    st.pc.append(Implies(Eq(n, I(0)), Eq(t, EMPTY_SETI)))
+    st.pc.append(Implies(Gt(n, I(0)), And(select(t, app("seq.nth", INT, items, I(0))),
+                                          select(t, app("seq.nth", INT, items, Sub(n, I(1)))))))
+    return t
+
+
+def _set_content_of(ex, st, v, where="") -> T:
+    v = ex.unwrap(v)
+    if isinstance(v, VSetv):
+        return v.t
+    if isinstance(v, VSet):
+        return ex.set_content(st, v)
+    if isinstance(v, (VList, VSeq, VDeque)):
+        t, ek = ex.as_seq(st, v)
+        if elem_sort(ek) != INT:
+            raise Unsupported(f"set of non-int elements at {where}")
+        return listset(ex, st, t)
+    raise Unsupported(f"not a set-like value: {v!r} at {where}")
+
+
+@builtin("set")
+def _set(ex, st, args, kwargs, k, where):
+    if not args:
+        s2, v = ex.new_set(st, K_INT, EMPTY_SETI)
+        return k(s2, v)
+    v = args[0]
+    if v is VNone or isinstance(v, VOpt):
+        return ex.split_opt(st, v, lambda s: ex.raise_(s, "TypeError", f"set(None) at {where}"),
+                            lambda s, inner: _set(ex, s, [inner], kwargs, k, where))
+    s2, r = ex.new_set(st, K_INT, _set_content_of(ex, st, v, where))
+    return k(s2, r)
+
+
+@method("VSet", "add")
+def _set_add(ex, st, base, args, kwargs, k, where):
+    v = ex.unwrap_strict(args[0])
+    if isinstance(v, VAny):
+        fn = ex.reg.specfns.get("any_as_int")
+        if fn is None:
+            raise Unsupported(f"set.add of an opaque value at {where}")
+        v = fn(ex, st, v)
+    if not isinstance(v, VInt):
+        raise Unsupported(f"set.add of {v!r} at {where}")
+    return k(ex.set_set_content(st, base, store(ex.set_content(st, base), v.t, TRUE)), VNone)
+
+
+def set_binop(ex, st, op, a, b):
+    """& and | on sets: a new set object"""
+    import ast as _ast
+    ca, cb = _set_content_of(ex, st, a), _set_content_of(ex, st, b)
+    fn = "and" if isinstance(op, _ast.BitAnd) else "or"
+    return ex.new_set(st, K_INT, T(f"((_ map {fn}) {ca.s} {cb.s})", SETI))
+
+
+def list_of_set(ex, st, v: VSet):
+    """list(s): a new list whose element set is s (order unspecified; duplicates impossible but not stated)"""
+    items = ex.arbitrary("(Seq Int)", "setlist")
+    st = st.copy()
+    st.pc.append(Eq(listset(ex, st, items), ex.set_content(st, v)))
+    return ex.new_list(st, K_INT, items)
+
+
+@REG.specfn("setv")
+def _setv(ex, st, v):
+    return VSetv(_set_content_of(ex, st, v))
+
+
+@REG.specfn("set_inter")
+def _set_inter(ex, st, a, b):
+    return VSetv(T(f"((_ map and) {_set_content_of(ex, st, a).s} {_set_content_of(ex, st, b).s})", SETI))
+
+
+@REG.specfn("set_union")
+def _set_union(ex, st, a, b):
+    return VSetv(T(f"((_ map or) {_set_content_of(ex, st, a).s} {_set_content_of(ex, st, b).s})", SETI))
+
+
+@REG.specfn("set_empty")
+def _set_empty(ex, st, a):
+    return VBool(Eq(_set_content_of(ex, st, a), EMPTY_SETI))
